@@ -107,8 +107,17 @@ CLAIMS['C09'] = dict(
     note=_TB + 'bounded stand-ins enumerate a stated finite space through the public API and are never counted as discharged obligations.',
     design_ref='DESIGN.md 5 C09')
 
+CLAIMS['C10'] = dict(
+    category='other',
+    text='BOUNDED STAND-IN ONLY, no proof: adjust_mappings (a sweep with labelled breaks over two hand-advanced iterators, a local struct, a nested fn taking a fn pointer, '
+         'Peekable, `as i32` displacement arithmetic) was not brought within the reach of the verifier; its contract -- the interval-by-interval composition of the property '
+         'statement -- is checked by exhaustive enumeration over a stated finite space on the real crate (bounded/: adjust, adjust_dups). Known finding D10 (duplicate positions).',
+    note='No obligation is discharged for this property. Bound: original maps of <= 3 tokens and adjustment maps of <= 2 tokens over small grids with 4 displacements.',
+    technique='bounded enumeration of the function contract (stand-in for contract-based deductive verification)',
+    design_ref='DESIGN.md 5 C10')
+
 NOT_APPLICABLE = {p: 'under construction in this session (contract-based check being built; see DESIGN.md decision table)' for p in
-                  ['C10', 'C15', 'C17', 'C18', 'C19', 'C20']}
+                  ['C15', 'C17', 'C18', 'C19', 'C20']}
 NOT_APPLICABLE['C16'] = ('concurrency (interleavings of threads sharing a SourceView over std Mutex / atomics): Kani has no thread support and Verus needs '
                          'its own permission-typed primitives, so no contract within reach of the installed verifiers expresses or decides it')
 
